@@ -54,3 +54,33 @@ Proof.
   repeat split; try (intro H; apply ks_inj in H; discriminate).
   intros i Hi H. apply ks_inj in H. lia.
 Qed.
+
+(* ---------- the concrete collection models are blind to their observers ---------- *)
+From Lerax Require Import Replay OffPolicy.
+From Coq Require Import QArith.
+
+Section ConcreteFacts.
+  Context {S PS O CS : Type}.
+  Variable gamma : Q.
+  Variable E : env S Q O.
+  Variable P : acpol PS Q O.
+
+  Theorem onpolicy_collection_ignores_observer (cb : CS -> @orow PS O -> kpath -> CS) : forall keys st c,
+    let '(st', _, rows) := scan_steps_cb gamma E P cb st c keys in
+    (st', rows) = scan_steps gamma E P st keys.
+  Proof.
+    induction keys as [|k tl IH]; intros st c; [reflexivity|].
+    cbn [scan_steps_cb scan_steps]. destruct (op_step gamma E P st k) as [st1 row].
+    specialize (IH st1 (cb c row (ks k 9 8))).
+    destruct (scan_steps_cb gamma E P cb st1 (cb c row (ks k 9 8)) tl) as [[st2 c2] rows].
+    destruct (scan_steps gamma E P st1 tl) as [st2' rows']. inversion IH; subst. reflexivity.
+  Qed.
+
+  Theorem offpolicy_collection_ignores_observer (cb : CS -> trow O Q PS -> kpath -> CS) : forall keys st c,
+    fst (off_scan_cb E P cb st c keys) = off_scan E P st keys.
+  Proof.
+    induction keys as [|k tl IH]; intros st c; [reflexivity|].
+    cbn [off_scan_cb]. unfold off_scan in *. cbn [fold_left]. apply IH.
+  Qed.
+
+End ConcreteFacts.
